@@ -1,6 +1,7 @@
 package props
 
 import (
+	"syscall"
 	"context"
 	"errors"
 	"fmt"
@@ -13,6 +14,7 @@ import (
 	"github.com/yandex/pandora/core/engine"
 	"go.uber.org/zap"
 
+	"verifsim/simfs"
 	"verifsim/simrt"
 	"verifsim/stubs"
 )
@@ -27,6 +29,8 @@ type c05Fault struct {
 }
 
 type c05Pool struct {
+	// BlockingAggr: Report blocks while the aggregator's queue is full, as phout's does
+	BlockingAggr bool
 	Inst        int
 	Tokens      int
 	PerInstance bool
@@ -39,7 +43,7 @@ type c05Pool struct {
 }
 
 func (p c05Pool) String() string {
-	return fmt.Sprintf("{inst=%d tokens=%d perInst=%v items=%d shot=%v closable=%v fault=%s@%d ctxkind=%v}", p.Inst, p.Tokens, p.PerInstance, p.Items, p.ShotDur, p.Closable, p.Fault.Kind, p.Fault.Pos, p.Fault.CtxKind)
+	return fmt.Sprintf("{inst=%d tokens=%d perInst=%v items=%d shot=%v closable=%v blockingAggr=%v fault=%s@%d ctxkind=%v}", p.Inst, p.Tokens, p.PerInstance, p.Items, p.ShotDur, p.Closable, p.BlockingAggr, p.Fault.Kind, p.Fault.Pos, p.Fault.CtxKind)
 }
 
 var c05Kinds = []string{"none", "prov-err", "aggr-open", "aggr-err", "aggr-drop", "gun-new", "bind", "warmup", "shot-panic", "sched-shared", "sched-inst"}
@@ -73,6 +77,7 @@ func c05GenPool(w, f *simrt.Stream, faultHere bool, kindForced string) c05Pool {
 	p.ShotDur = []time.Duration{0, time.Millisecond, 100 * time.Millisecond, time.Second}[w.Draw(4)]
 	p.ProvBlock = w.Draw(4) == 0 // only honoured when a cancel is planned (a provider that neither delivers nor ends cannot finish otherwise)
 	p.Fault = c05Fault{Kind: "none"}
+	p.BlockingAggr = false
 	if faultHere {
 		k := c05Kinds[1+f.Draw(len(c05Kinds)-1)]
 		if kindForced != "" {
@@ -123,6 +128,10 @@ type c05PoolRT struct {
 }
 
 func runC05(r *R) {
+	if (r.Mode == "" && r.W.Draw(8) == 0) || r.Mode == "real" {
+		c05Real(r)
+		return
+	}
 	w, f := r.W, r.F
 	npools := 1 + w.Biased(3, 2, 3)
 	faultPool := -1
@@ -195,6 +204,7 @@ func runC05(r *R) {
 				rt.prov.CtxKind = ps.Fault.CtxKind
 			}
 			rt.aggr = stubs.NewScriptAggregator(rt.log, ps.QLen)
+			rt.aggr.Blocking = ps.BlockingAggr
 			rt.aggr.CtxKind = ps.Fault.CtxKind
 			switch ps.Fault.Kind {
 			case "aggr-open":
@@ -483,4 +493,142 @@ func c05Cell(pools []c05Pool, cancelPhase int) string {
 func c05Kind(pools []c05Pool) string {
 	c := c05Cell(pools, 0)
 	return c[:strings.Index(c, "/cancel")]
+}
+
+// ---- second configuration set: real aggregators and providers failing for real reasons (disk) ----
+
+// c05Real: one pool with the real phout / jsonlines aggregator and the real uri provider on the simulated disk, a
+// reporting stub gun; the disk fails (ENOSPC / EIO at a byte offset of the result file, EIO at a byte offset of the
+// ammo file). The run must end with an error that carries the cause, Engine.Wait must return, nothing may stay
+// blocked.
+func c05Real(r *R) {
+	w, f := r.W, r.F
+	sp := genC06Spec(w)
+	sp.Queue = []int{1, 2, 4, 64}[w.Draw(4)]
+	inst := 1 + w.Draw(5)
+	tokens := 5 + w.Draw(60)
+	var ammo strings.Builder
+	n := 3 + w.Draw(6)
+	for i := 0; i < n; i++ {
+		fmt.Fprintf(&ammo, "/path/%d?x=%d tag%d\n", i, i, i)
+	}
+	resPlan, ammoPlan := simfs.NoPlan(), simfs.NoPlan()
+	fault := "none"
+	switch f.Draw(4) {
+	case 0:
+		fault = "result-enospc"
+		resPlan.WriteErrAt, resPlan.WriteErr = int64(f.Draw(1500)), syscall.ENOSPC
+	case 1:
+		fault = "result-eio"
+		resPlan.WriteErrAt, resPlan.WriteErr = int64(f.Draw(1500)), syscall.EIO
+	case 2:
+		fault = "ammo-eio"
+		ammoPlan.ReadErrAt = int64(f.Draw(ammo.Len()))
+		ammoPlan.ReadChunk = 16
+	}
+	// small write buffers so that the fault is met while shots are still being fired
+	sp.Buffer = "1kb"
+	sp.FlushInt = "100ms"
+	shot := []time.Duration{0, time.Millisecond, 50 * time.Millisecond}[w.Draw(3)]
+	r.Sample(map[string]any{"mode": "real-components", "aggregator": sp.conf(), "instances": inst, "tokens": tokens, "ammo_entries": n, "fault": fault, "shot": shot.String()})
+	r.NonTrivial()
+	r.Note("real/" + sp.Kind + "/" + fault)
+	var (
+		runErr            error
+		runDone, waitDone bool
+		disk              *simfs.Fs
+		log               *stubs.Log
+		buildErr          error
+	)
+	res := r.Sim(simrt.Config{Horizon: time.Hour, Grace: 30 * time.Second, MaxSteps: 300000}, false, func() {
+		disk = simfs.New()
+		disk.MkdirAll("/results", 0o755)
+		disk.WriteFile("/ammo/ammo.uri", []byte(ammo.String()))
+		rp, ap := resPlan, ammoPlan
+		disk.Plans[sp.Path] = &rp
+		disk.Plans["/ammo/ammo.uri"] = &ap
+		GlobalFs.Set(disk)
+		aggr, err := decodeAggregator(sp.conf())
+		if err != nil {
+			buildErr = err
+			return
+		}
+		prov, err := decodeProvider(map[string]interface{}{"type": "uri", "file": "/ammo/ammo.uri"})
+		if err != nil {
+			buildErr = err
+			return
+		}
+		log = stubs.NewLog()
+		script := stubs.DefaultGunScript()
+		script.Report = true
+		script.JSONSamples = sp.Kind == "jsonlines"
+		script.ShotDur = func(int, int) time.Duration { return shot }
+		fac := &stubs.GunFactory{Log: log, Script: script}
+		startup, _ := decodeSchedule(map[string]interface{}{"type": "once", "times": inst})
+		pool := engine.InstancePoolConfig{
+			ID: "p0", Provider: prov, Aggregator: aggr, NewGun: fac.New, StartupSchedule: startup,
+			NewRPSSchedule: func() (core.Schedule, error) {
+				return decodeSchedule(map[string]interface{}{"type": "const", "ops": 100, "duration": fmt.Sprintf("%dms", tokens*10)})
+			},
+		}
+		eng := engine.New(zap.NewNop(), newMetrics(), engine.Config{Pools: []engine.InstancePoolConfig{pool}})
+		runErr = eng.Run(context.Background())
+		runDone = true
+		eng.Wait()
+		waitDone = true
+	})
+	GlobalFs.Set(simfs.New())
+	fired := map[string]int{}
+	if disk != nil {
+		fired = disk.Fired
+		for k, v := range fired {
+			for i := 0; i < v; i++ {
+				r.Fault("disk:"+k, true)
+			}
+		}
+	}
+	faultBit := fired["write-error"]+fired["read-eio"]+fired["short-write"] > 0
+	ctx := fmt.Sprintf("real %s aggregator (queue %d), real uri provider, %d instances, fault %s (fired: %v)", sp.Kind, sp.Queue, inst, fault, fired)
+	switch res.Class {
+	case simrt.Crash:
+		r.Fail("real/CRASH/"+frameSig(res.Stack), "%s\n%s\n%s", res.Detail, res.Stack, ctx)
+		return
+	case simrt.Hang, simrt.Livelock, simrt.Spin:
+		switch {
+		case !runDone:
+			r.Fail("real/run-never-returns/"+sp.Kind+"/"+fault, "Engine.Run did not return: %s; %s", res.Detail, ctx)
+		case !waitDone:
+			r.Fail("real/wait-never-returns/"+sp.Kind+"/"+fault, "Engine.Run returned %v but Engine.Wait never returned: %s; %s", runErr, res.Detail, ctx)
+		default:
+			r.Fail("real/HANG", "%s; %s", res.Detail, ctx)
+		}
+		return
+	}
+	if buildErr != nil {
+		if fault == "none" {
+			r.Fail("real/build-error", "%v", buildErr)
+		}
+		return
+	}
+	if faultBit && runErr == nil {
+		r.Fail("real/error-swallowed/"+sp.Kind+"/"+fault, "the disk failed (%v) but Engine.Run returned nil; %s", fired, ctx)
+	}
+	if !faultBit && runErr != nil {
+		r.Fail("real/spurious-error/"+sp.Kind, "Engine.Run returned %q without any injected fault having fired; %s", runErr, ctx)
+	}
+	if faultBit && runErr != nil {
+		want := "input/output error"
+		if fault == "result-enospc" {
+			want = "no space left"
+		}
+		if !strings.Contains(runErr.Error(), want) {
+			r.Fail("real/error-does-not-carry-cause/"+fault, "Engine.Run returned %q, which does not carry the cause (%s); %s", runErr, want, ctx)
+		}
+	}
+	for _, l := range res.Leaked {
+		if strings.Contains(l, "core/engine") {
+			r.Fail("real/goroutine-leak/"+sp.Kind+"/"+fault, "engine goroutines still alive 30s after the run ended: %v; %s", res.Leaked, ctx)
+			break
+		}
+	}
 }
